@@ -87,7 +87,7 @@ def run(tier):
     if p.returncode != 0:
         raise vp.ToolError("serde_probe died with %s" % p.returncode)
     res = {}
-    for line in p.stdout.decode().splitlines():
+    for line in p.stdout.decode().split("\n"):
         x = json.loads(line)
         res[x["id"]] = x
     for i, v in enumerate(vecs):
@@ -123,7 +123,7 @@ def run(tier):
     mk = lambda keys: {"k": "map", "v": [[{"k": "str", "v": k}, {"k": "int", "w": "u8", "v": "1"}] for k in keys]}
     inp = "\n".join(json.dumps({"id": i, "ty": ty, "val": mk(ks)}) for i, ks in enumerate((["b", "a", "c"], ["c", "b", "a"], ["a", "c", "b"]))) + "\n"
     p = subprocess.run([vp.bin_path("serde_probe")], input=inp.encode(), stdout=subprocess.PIPE, timeout=60)
-    outs = [json.loads(l)["render"].get("out", "") for l in p.stdout.decode().splitlines()]
+    outs = [json.loads(l)["render"].get("out", "") for l in p.stdout.decode().split("\n") if l.strip()]
     C.count(3)
     if len(set(outs)) != 1 or not (0 <= outs[0].find("a") < outs[0].find("b") < outs[0].find("c")):
         C.violation({"kind": "sorted-keys"}, "maps built in different insertion orders print %s" % outs, {"outs": outs})
@@ -134,7 +134,7 @@ def run(tier):
         val = {"k": "map", "v": [[kk, {"k": "int", "w": "u8", "v": "1"}] for kk in keys]}
         inp = "\n".join(json.dumps({"id": i, "ty": ty, "val": val}) for i in range(40)) + "\n"
         p = subprocess.run([vp.bin_path("serde_probe")], input=inp.encode(), stdout=subprocess.PIPE, timeout=60)
-        outs = set(json.loads(l)["render"].get("out", "") for l in p.stdout.decode().splitlines())
+        outs = set(json.loads(l)["render"].get("out", "") for l in p.stdout.decode().split("\n") if l.strip())
         C.count(40)
         C.nontrivial(["sorted", kt])
         if len(outs) != 1:
